@@ -18,17 +18,18 @@ PROPS = {
 
 PROPS['C08'] = {
     'level': 'proof',
-    'units': ['C08/shift_and', 'C08/kmp', 'C08/horspool', 'C08/bndm'],
+    'units': ['C08/shift_and', 'C08/kmp', 'C08/horspool', 'C08/bndm', 'C08/bom'],
     'kani': [],
     'oracle': 'C08',
-    'decided': ['ShiftAnd, KMP, Horspool, BNDM: every call of Matches::next returns the next occurrence at or after the frontier, skips none, and None only when no occurrence remains (hence increasing, duplicate-free, complete), for every pattern 1..=64 (bit-parallel) / any length and every text',
+    'decided': ['ShiftAnd, KMP, Horspool, BNDM, BOM: every call of Matches::next returns the next occurrence at or after the frontier, skips none, and None only when no occurrence remains (hence increasing, duplicate-free, complete), for every pattern 1..=64 (bit-parallel) / any length and every text',
                 'mask/shift/lps tables built by masks (forward instance for ShiftAnd, reversed instance for BNDM), Horspool::new, lps equal their definitions',
-                'constructors and find_all of all four matchers: new(p) yields a well-formed matcher whose abstract pattern IS p (recoverable from the tables), find_all starts from a pattern-only state at frontier 0 — so a matcher built once gives the same answers on every text'],
-    'undecided': ['BOM (factor-oracle completeness theorem out of reach; no contract decides it)',
-                  ],
-    'trusted': ['Enumerate<slice::Iter<u8>>::next model (assume_specification)', 'iterator parameters instantiated at byte slices (rules R6*, INST)'],
-    'level_text': 'Verus proves the iterator contract (next occurrence, none skipped, termination) on the real next() of four of the five matchers and the table-construction functions, for all patterns and texts; BOM is not decided.',
-    'level_note': 'Trusted: Verus/Z3, Enumerate::next model, instantiation of the generic iterator parameters at &[u8]; BOM undecided; see evidence assumptions.',
+                'BOM::new builds the factor oracle of the reversed pattern: the unit proves, as an invariant of the real on-line construction loop (suffix-chain walk, `table[k].insert`, `suff[i] = ...`), that every factor of the reversed pattern is read by the table and that the only word of length m that is read is the reversed pattern itself (factor-oracle theorem, machine-checked by a new, simpler invariant: edge closure along suffix links + every suffix ends on the suffix chain of the last state); BOM::delta; Matches::next: a failed read proves that no occurrence overlaps the symbols read, so the shift m + 2 - j skips nothing; a complete read ends in a state iff the window equals the pattern',
+                'constructors and find_all of all five matchers: new(p) yields a well-formed matcher whose abstract pattern IS p (recoverable from the tables; for BOM: lemma_wf_unique - the table is the oracle of exactly one pattern), find_all starts from a pattern-only state at frontier 0 - so a matcher built once gives the same answers on every text'],
+    'undecided': ['instantiations of the generic iterator parameters other than byte slices'],
+    'trusted': ['Enumerate<slice::Iter<u8>>::next model (assume_specification)', 'iterator parameters instantiated at byte slices (rules R6*, INST; in BOM::new the adapter chains `pattern.into_iter()`, `.clone().max().expect(..)`, `pattern.rev().enumerate()` are hand-declared INST rewrites to slice indexing)',
+                'vec_map::VecMap stub (external crate: with_capacity/insert/contains_key/get as a map), Option::copied (assume_specification), iter_max stub (value unused except as a capacity hint)'],
+    'level_text': 'Verus proves the iterator contract (next occurrence, none skipped, termination or bounded progress) on the real next() of all five matchers and the table-construction functions, for all patterns and texts; for BOM the factor-oracle theorem is proved in the unit as an invariant of the real construction loop.',
+    'level_note': 'Trusted: Verus/Z3, Enumerate::next model, instantiation of the generic iterator parameters at &[u8] (hand-declared INST rewrites in BOM::new), VecMap stub; see evidence assumptions.',
 }
 
 PROPS['C04'] = {
